@@ -23,9 +23,13 @@ import (
 //
 // trace:  case <id> lim <nb> <closing fee> <withdrawal fee> 4 <asset denom>x4 <base0> <base1> <base2>
 //         op dep|can|wd ...                                  one message
-//         op fill <debt asset> <coll asset> <premium> <D> <ok> <n> <who>*n
+//         op fill <debt asset> <coll asset> <premium> <D> <ok> <n> (<who> <bid>)*n
 //                                                            one LimitOrderBid closure (one auction whose
-//                                                            discount has limit bids), in the order of the block
+//                                                            discount has limit bids), in the order of the block:
+//                                                            D = the outstanding debt before the closure, the
+//                                                            limit bids it bid with and the amount
+//                                                            PlaceDutchAuctionBid actually bid for each (the debt
+//                                                            amount of the user bid it created); ok = committed
 //         op block <now> <ok|panic>                          ends the block
 //         lobs <n> <records> <m> <totals> <module balance>x3 <auction proceeds>x3 <bidder balances>
 // "auction proceeds" = for every running Dutch auction TargetDebt - outstanding debt: debt coins the
@@ -220,7 +224,6 @@ func (l *c11Lim) block(now int64) {
 		id           uint64
 		debtA, collA uint64
 		prem, D      sdk.Int
-		whos         []int
 	}
 	var groups []grp
 	cctx, _ := ctx.CacheContext()
@@ -233,28 +236,28 @@ func (l *c11Lim) block(now int64) {
 			continue
 		}
 		prem := au.CollateralTokenOraclePrice.Sub(au.CollateralTokenAuctionPrice).Quo(au.CollateralTokenOraclePrice).Mul(sdk.NewDecFromInt(sdk.NewInt(100))).TruncateInt()
-		recs, found := a.NewaucKeeper.GetUserLimitBidDataByPremium(cctx, au.DebtAssetId, au.CollateralAssetId, prem)
-		if !found {
+		if _, found := a.NewaucKeeper.GetUserLimitBidDataByPremium(cctx, au.DebtAssetId, au.CollateralAssetId, prem); !found {
 			continue
 		}
-		g := grp{id: au.AuctionId, debtA: au.DebtAssetId, collA: au.CollateralAssetId, prem: prem, D: au.DebtToken.Amount}
-		for _, rc := range recs {
-			g.whos = append(g.whos, c11Idx(f, rc.BidderAddress))
-		}
-		groups = append(groups, g)
+		groups = append(groups, grp{id: au.AuctionId, debtA: au.DebtAssetId, collA: au.CollateralAssetId, prem: prem, D: au.DebtToken.Amount})
 	}
+	firstBid := a.NewaucKeeper.GetUserBidID(ctx) + 1
 	res := "ok"
 	if p, _ := safely(func() { auctionsV2.BeginBlocker(ctx, a.NewaucKeeper) }); p {
 		res = "panic"
 	}
+	lastBid := a.NewaucKeeper.GetUserBidID(ctx)
 	for _, g := range groups {
-		au2, err := a.NewaucKeeper.GetAuction(ctx, g.id)
-		ok := err != nil || !au2.DebtToken.Amount.Equal(g.D)
+		// the automatic bids the closure committed, in order: (bidder, amount actually bid)
 		var sb strings.Builder
-		for _, w := range g.whos {
-			fmt.Fprintf(&sb, " %d", w)
+		n := 0
+		for id := firstBid; id <= lastBid; id++ {
+			if ub, err := a.NewaucKeeper.GetUserBid(ctx, id); err == nil && ub.AuctionId == g.id {
+				fmt.Fprintf(&sb, " %d %s", c11Idx(f, ub.BidderAddress), ub.DebtTokenAmount.Amount)
+				n++
+			}
 		}
-		l.tr.p("op fill %d %d %s %s %s %d%s", g.debtA, g.collA, g.prem, g.D, b2s(ok), len(g.whos), sb.String())
+		l.tr.p("op fill %d %d %s %s %s %d%s", g.debtA, g.collA, g.prem, g.D, b2s(n > 0), n, sb.String())
 	}
 	l.tr.p("op block %d %s", now, res)
 	l.observe()
@@ -294,7 +297,8 @@ func c11LimitCorpus(t *testing.T, f *c11Fix, tr *tracer, ci int) {
 	case 3: // thorough-tier case 13235 (seed 1): a partial fill, then a deposit that meets the rest of the
 		// debt when the collateral has run short: the bid is cut down to the value of the left-over
 		// collateral (104 800 < the penalty 120 000 the module keeps as fees), the app reserve pays the
-		// rest into the module, the auction closes, the record is charged in full
+		// rest into the module, the auction closes, the record is charged the 104 800 that were bid
+		// (fixes/C10-F5; the original code charged it in full)
 		l := c11NewLim(t, f, tr, ci, 2, sdk.MustNewDecFromStr("0.005"), zero, rich, [3]int64{5000000, 0, 0},
 			[]c11AucSpec{{debtAsset: f.harbor, debt: 3000000, fee: 120000, collateral: 1500000, resrv: 10000000}})
 		l.deposit(0, l.col, f.harbor, 9, 0, sdk.NewInt(1250000))
@@ -306,7 +310,7 @@ func c11LimitCorpus(t *testing.T, f *c11Fix, tr *tracer, ci int) {
 		l.cancel(0, l.col, f.harbor, 9)
 	case 4: // a record above the debt of an auction whose collateral (1 000 000 at 0.906) is worth less than
 		// the debt 1 120 000: the bid is cut to 906 000, the reserve pays 214 000, the record is charged
-		// 1 120 000 (the settlement spends less than the record is charged: C10's concern);
+		// 906 000 (fixes/C10-F5; the original code charged 1 120 000: finding C10-F5);
 		// then the same auction with a reserve that is too small: the closure fails atomically
 		l := c11NewLim(t, f, tr, ci, 2, zero, zero, rich, [3]int64{0, 0, 0},
 			[]c11AucSpec{{debtAsset: f.harbor, debt: 1000000, fee: 120000, collateral: 1000000, resrv: 10000000},
@@ -315,22 +319,24 @@ func c11LimitCorpus(t *testing.T, f *c11Fix, tr *tracer, ci int) {
 		l.deposit(1, l.col, f.cmst, 9, 1, sdk.NewInt(3000000))
 		l.block(c11T0 + 2940)
 		l.block(c11T0 + 2941)
-		l.withdraw(0, l.col, f.harbor, 9, 0, sdk.NewInt(1880001))
-		l.withdraw(0, l.col, f.harbor, 9, 0, sdk.NewInt(1880000))
+		l.withdraw(0, l.col, f.harbor, 9, 0, sdk.NewInt(2094001))
+		l.withdraw(0, l.col, f.harbor, 9, 0, sdk.NewInt(2094000))
 		l.cancel(1, l.col, f.cmst, 9)
-	case 5: // two records below the debt in one closure: LimitOrderBid bids with the auction it read before
-		// the loop, the second bid overwrites the first one's auction update (debt 500 003 - 1, not - 1000);
-		// both records are charged in full
+	case 5: // two records below the debt in one closure: each is bid on the auction as the previous one left it
+		// (fixes/C10-F6; the original code bid with the auction it read before the loop, the second bid
+		// overwrote the first one's auction update: debt 500 003 - 1, not - 1000); both records are used up;
+		// a record of exactly the remaining debt then closes the auction
 		l := c11NewLim(t, f, tr, ci, 2, zero, zero, rich, [3]int64{0, 0, 0},
 			[]c11AucSpec{{debtAsset: f.harbor, debt: 500003, fee: 0, collateral: 1000006}})
 		l.deposit(0, l.col, f.harbor, 5, 0, sdk.NewInt(1))
 		l.deposit(1, l.col, f.harbor, 5, 0, sdk.NewInt(999))
 		l.block(c11T0 + 2550)
-		l.deposit(0, l.col, f.harbor, 6, 0, sdk.NewInt(500002))
+		l.deposit(0, l.col, f.harbor, 6, 0, sdk.NewInt(499003))
 		l.block(c11T0 + 2650)
 	case 6: // a record above the debt followed by another record of the premium: the first bid closes the
-		// auction, the second one fails on the closed auction, the closure is rolled back -- every block,
-		// until the second depositor leaves
+		// auction and ends the closure, the other record is untouched (fixes/C10-F6; on the original code the
+		// second bid failed on the closed auction and the closure was rolled back on every block until the
+		// second depositor left)
 		l := c11NewLim(t, f, tr, ci, 2, zero, zero, rich, [3]int64{0, 0, 0},
 			[]c11AucSpec{{debtAsset: f.harbor, debt: 1000000, fee: 0, collateral: 2000000}})
 		l.deposit(0, l.col, f.harbor, 5, 0, sdk.NewInt(3000000))
